@@ -17,7 +17,7 @@ from typing import Any, Dict, List
 
 from .consteval import NotConstant
 from .partition import MiniInterp, Opaque
-from .repo import AnalysisError, norm
+from .repo import AnalysisError, norm, walk_no_nested
 
 _FLAGS = {"re.I": _re.I, "re.IGNORECASE": _re.I, "re.VERBOSE": _re.X, "re.X": _re.X, "re.ASCII": _re.A, "re.A": _re.A,
           "re.S": _re.S, "re.DOTALL": _re.S, "re.M": _re.M, "re.MULTILINE": _re.M, "re.U": _re.U, "re.UNICODE": _re.U}
@@ -54,6 +54,8 @@ class ClassEval:
         self.globals_override = dict(globals_override or {})
         self.depth = 0
         self.calls: List[str] = []
+        self.method_models: Dict[str, Any] = {}     # method name -> callable used instead of interpreting the method
+        self.function_models: Dict[str, Any] = {}   # module-level function name -> callable (models of third-party look-ups)
         self.stream = None          # characters still to be read (a list), when the class reads `self.stream.char()`
         self.emitted: List[Any] = []   # what was appended to `self.tokenQueue`
         self.yielded: List[Any] = []   # what a generator method yielded
@@ -175,9 +177,22 @@ class ClassEval:
         if t == "isinstance" and len(node.args) == 2 and isinstance(node.args[0], ast.Name) and isinstance((local or {}).get(node.args[0].id), Record):
             names = [norm(e) for e in (node.args[1].elts if isinstance(node.args[1], (ast.Tuple, ast.List)) else [node.args[1]])]
             return any(n_.split(".")[-1] in local[node.args[0].id]._isa for n_ in names)
+        if isinstance(fn, ast.Name) and fn.id in self.function_models and (local is None or fn.id not in local):
+            return self.function_models[fn.id](*[ev(a) for a in node.args])
+        if t == "isinstance" and len(node.args) == 2:
+            types_ = {"bytes": bytes, "str": str, "text_type": str, "int": int, "dict": dict, "list": list, "tuple": tuple, "bool": bool, "float": float,
+                      "binary_type": bytes}
+            names = [norm(e).split(".")[-1] for e in (node.args[1].elts if isinstance(node.args[1], (ast.Tuple, ast.List)) else [node.args[1]])]
+            if all(n_ in types_ for n_ in names):
+                v_ = ev(node.args[0])
+                if not isinstance(v_, Record):
+                    return isinstance(v_, tuple(types_[n_] for n_ in names))
         # a function of this module, or of a package module imported by name (`_utils.isSurrogatePair(x)`)
         if isinstance(fn, ast.Name) and fn.id in getattr(self.mod, "functions", {}) and (local is None or fn.id not in local) and not node.keywords:
             return self.callf(self.mod, fn.id, [ev(a) for a in node.args])
+        if isinstance(fn, ast.Attribute) and isinstance(fn.value, ast.Name) and fn.attr in self.function_models and \
+                fn.value.id in getattr(self.mod, "imports", {}) and (local is None or fn.value.id not in local) and not node.keywords:
+            return self.function_models[fn.attr](*[ev(a) for a in node.args])
         if isinstance(fn, ast.Attribute) and isinstance(fn.value, ast.Name) and self.repo is not None and fn.value.id in getattr(self.mod, "imports", {}) \
                 and (local is None or fn.value.id not in local) and not node.keywords:
             rr = self.repo.resolve_import(self.mod, fn.value.id)
@@ -212,6 +227,10 @@ class ClassEval:
                 mv = None
             if isinstance(mv, _Match):
                 return getattr(mv.m, fn.attr)(*[ev(a) for a in node.args])
+        if isinstance(fn, ast.Attribute) and isinstance(fn.value, ast.Name) and fn.value.id == "self" and fn.attr in self.method_models:
+            return self.method_models[fn.attr](*[ev(a) for a in node.args])
+        if isinstance(fn, ast.Name) and fn.id in self.function_models and (local is None or fn.id not in local):
+            return self.function_models[fn.id](*[ev(a) for a in node.args])
         if isinstance(fn, ast.Attribute) and isinstance(fn.value, ast.Name) and fn.value.id == "self" and self.cls is not None and \
                 self.cls.find_method(fn.attr) is not None:
             if node.keywords:
@@ -289,7 +308,7 @@ class ClassEval:
         # a store into a concrete container reached through an expression (`self.currentToken["data"][-1][1] += output`)
         if isinstance(st, (ast.Assign, ast.AugAssign)):
             tg = st.targets[0] if isinstance(st, ast.Assign) and len(st.targets) == 1 else getattr(st, "target", None)
-            if isinstance(tg, ast.Subscript) and not isinstance(tg.value, ast.Name):
+            if isinstance(tg, ast.Subscript) and (not isinstance(tg.value, ast.Name) or isinstance(env.get(tg.value.id), (list, dict))):
                 try:
                     cont = interp.eval_expr(tg.value, env)
                     if isinstance(cont, (list, dict)):
@@ -368,6 +387,7 @@ class ClassEval:
         if mod is not self.mod:
             sub = ClassEval(self.ce, mod, None, {}, repo=self.repo)
             sub.depth = self.depth
+            sub.function_models, sub.method_models = self.function_models, self.method_models
             return sub._run(f, f.params(), args, None, fname, with_self=False)
         return self._run(f, f.params(), args, None, fname, with_self=False)
 
@@ -401,6 +421,10 @@ class ClassEval:
         self.calls.append(mname)
         self.depth += 1
         saved = self.ce.hook
+        is_generator = any(isinstance(x, (ast.Yield, ast.YieldFrom)) for x in walk_no_nested(f.node))
+        saved_yielded = self.yielded
+        if is_generator and self.depth > 1:
+            self.yielded = []          # a generator called by the evaluated code: its items are the value of the call
         try:
             interp = MiniInterp(self.ce, self.mod, guard_hook=self._guard_hook, expr_hook=self._expr_hook, stmt_hook=self._stmt_hook)
             try:
@@ -410,6 +434,13 @@ class ClassEval:
         finally:
             self.depth -= 1
             self.ce.hook = saved
+            produced = self.yielded
+            if is_generator and self.depth >= 1:
+                self.yielded = saved_yielded
+        if is_generator and self.depth >= 1:
+            if res.raised or [e.text for e in res.effects]:
+                raise AnalysisError("%s (a generator) is not evaluable" % mname)
+            return list(produced)
         if res.raised:
             raise AnalysisError("%s raises %s on this input" % (mname, res.raised))
         leftover = [e.text for e in res.effects]
